@@ -684,12 +684,33 @@ fn infer_schema_from_updates(updates: &[Update]) -> TupleSchema {
     }
 
     let first = &updates[0].data;
-    let fields: Vec<(String, DataType)> = first
+    let mut fields: Vec<(String, DataType)> = first
         .values()
         .iter()
         .enumerate()
         .map(|(i, v)| (format!("col{i}"), v.data_type()))
         .collect();
+
+    // A fixed vector dimension is only valid if every vector of the column has it:
+    // otherwise the fixed-size list column ends up with a different length than the
+    // other columns and the whole batch (and the recovery that flushes it) fails.
+    for (i, (_, dt)) in fields.iter_mut().enumerate() {
+        let fixed = match dt {
+            DataType::Vector { dim: Some(n) } | DataType::VectorInt8 { dim: Some(n) } => *n,
+            _ => continue,
+        };
+        let uniform = updates.iter().all(|u| match u.data.get(i) {
+            Some(crate::value::Value::Vector(v)) => v.len() == fixed,
+            Some(crate::value::Value::VectorInt8(v)) => v.len() == fixed,
+            _ => true,
+        });
+        if !uniform {
+            *dt = match dt {
+                DataType::Vector { .. } => DataType::Vector { dim: None },
+                _ => DataType::VectorInt8 { dim: None },
+            };
+        }
+    }
 
     TupleSchema::new(fields)
 }
